@@ -74,7 +74,11 @@ def stepLine (d : DS) : List String → DS × String
       (d', showDS d' ++ (if r.2 then " raised" else ""))
     | none => (d, "bad-op")
   | ["dnew", a, o] => match parseAsm? a, parseNat? o with
-    | some a, some o => upd (know d a) (dischargeSwap d.st a o)
+    | some a, some o =>
+      let d1 := know d a
+      let r := dischargeSwapFresh d1.st a o
+      let d' := { d1 with st := r.1 }
+      (d', showDS d' ++ (if r.2 then " raised" else ""))
     | _, _ => (d, "bad-op")
   | ["dsfp", i, o] => match parseNat? i, parseNat? o with
     | some i, some o => match d.st.sfp.find? (fun a => a.id = i) with
